@@ -906,6 +906,8 @@ def _set_is_empty(m, c):
 @model("IndexSet::contains", "HashSet::contains")
 def _set_contains(m, c):
     s = m.strip(c.args[0])
+    if isinstance(s, FreeSetV):
+        return s.pred(m.strip(c.args[1]))
     r = False
     for x in s.items:
         r = b_or(r, val_eq(m, x, c.args[1]))
